@@ -78,6 +78,7 @@ theorem C18_layers_step_reject_unchanged {s s' : State} {op : Op} {e : Err}
   | remove a => simp only [step] at h; unfold remove at h; reject_branches
   | empties => simp only [step, Prod.mk.injEq] at h; exact h.1.symm
   | nbhdMask k geom torus c ic r => simp only [step] at h; unfold nbhdMask at h; reject_branches
+  | gridSet n => simp only [step] at h; unfold gridSet at h; reject_branches
   | select ms oe conds exts save => simp only [step] at h; reject_branches
 
 def Out.isErr : Out → Bool
